@@ -201,9 +201,9 @@ class Sched(object):
         """Wait until the process that was handed the baton yields at its next operation."""
         if not self.wake.acquire(STEP_TIMEOUT):
             who = self.last_moved.name if getattr(self, "last_moved", None) is not None else "?"
-            self.violations.append(("process-spins-outside-the-virtual-layer", "%s ran for %.0f s without reaching a scheduling point (a polling loop on something no other process can change while it runs)" % (who, STEP_TIMEOUT)))
             self.spinning = True
-            raise Spinning(who)
+            # not a verdict about the code under test: the exploration cannot proceed (reported as an error)
+            raise Spinning("a process (last moved: %s) ran for %.0f s without reaching a scheduling point: it polls on something outside the virtual layer without sleeping" % (who, STEP_TIMEOUT))
 
     def _resume(self, p, result=None, exc=None):
         p.pending = None
@@ -250,6 +250,7 @@ class Sched(object):
                     kwargs = copy.deepcopy(vp._kwargs)
                     child = self.spawn(vp._target, args, kwargs, group=getattr(vp._target, "__name__", "proc"))
                     vp._proc = child
+                    child.parent_pid = p.pid
                     self.vprocs.append((p.pid, vp))
                     child.sem.release()
                     self._await()
@@ -532,8 +533,11 @@ class Sched(object):
                 self._resume(p, exc=e)
                 return
             rel = self.rel(path)
-            # the file system is part of the state: a removal must show in the key
+            # the file system is part of the state: a removal / replacement must show in the key
             self.note_file(path)
+            for a in args[1:]:
+                if isinstance(a, str) and self.root and a.startswith(self.root):
+                    self.note_file(a)
             if rel in self.locks and not self._lock_present(rel):
                 holder = self.locks.pop(rel)
                 if holder != p.pid:
@@ -874,6 +878,70 @@ class Patched(object):
 
         os.unlink = unlink
         os.remove = unlink
+        # renaming a file into place under the scratch root is visible to the other processes as well
+        self.real_replace, self.real_rename = os.replace, os.rename
+
+        def _mover(real, label):
+            def move(src, dst, *a, **k):
+                pr = current_proc()
+                if pr is not None and sched.root and isinstance(src, str) and isinstance(dst, str) and dst.startswith(sched.root) and not sched.aborting and not pr.in_fsop:
+                    pr.in_fsop = True
+                    try:
+                        return sched.op("fsop", label, dst, real, (src, dst) + a)
+                    finally:
+                        pr.in_fsop = False
+                return real(src, dst, *a, **k)
+
+            return move
+
+        os.replace = _mover(self.real_replace, "replace")
+        os.rename = _mover(self.real_rename, "rename")
+        # creating / opening a file by descriptor under the scratch root (home-made marker files): visible as well,
+        # so that a check-then-create sequence can be interleaved
+        self.real_open = os.open
+        real_open = self.real_open
+
+        def os_open(path, flags, *a, **k):
+            pr = current_proc()
+            if pr is not None and sched.root and isinstance(path, str) and path.startswith(sched.root) and not sched.aborting and not pr.in_fsop and not k:
+                pr.in_fsop = True
+                try:
+                    return sched.op("fsop", "open", path, real_open, (path, flags) + a)
+                finally:
+                    pr.in_fsop = False
+            return real_open(path, flags, *a, **k)
+
+        os.open = os_open
+        # process identity: every virtual process has its own pid, and its parent's as ppid (what fork gives)
+        self.real_getpid, self.real_getppid = os.getpid, os.getppid
+        real_getpid, real_getppid = self.real_getpid, self.real_getppid
+
+        def getpid():
+            pr = current_proc()
+            return real_getpid() if pr is None else 100000 + pr.pid
+
+        def getppid():
+            pr = current_proc()
+            if pr is None or getattr(pr, "parent_pid", None) is None:
+                return real_getppid()
+            return 100000 + pr.parent_pid
+
+        os.getpid, os.getppid = getpid, getppid
+        # waiting made visible: a sleep inside a virtual process hands the baton back (a polling loop - retrying a
+        # marker file, waiting for a file to appear - becomes a cycle of the state graph instead of a hang)
+        import time as _time
+
+        self.real_sleep = _time.sleep
+        real_sleep = self.real_sleep
+
+        def sleep(secs):
+            pr = current_proc()
+            if pr is not None and not sched.aborting and not pr.in_fsop:
+                sched.op("pause", "sleep")
+                return None
+            return real_sleep(secs)
+
+        _time.sleep = sleep
         self.real_active_children = multiprocessing.active_children
 
         def active_children():
@@ -901,6 +969,12 @@ class Patched(object):
         ) = self.saved
         os.unlink = self.real_unlink
         os.remove = self.real_remove
+        os.replace, os.rename = self.real_replace, self.real_rename
+        os.open = self.real_open
+        os.getpid, os.getppid = self.real_getpid, self.real_getppid
+        import time as _time
+
+        _time.sleep = self.real_sleep
         multiprocessing.active_children = self.real_active_children
         CURRENT = None
         return False
